@@ -92,10 +92,15 @@ pub struct Layout {
     /// extra namespaced attributes whose local names END in the names the loader looks up (ID, ID-REF,
     /// BASE-DATA-TYPE), placed BEFORE the real attribute
     pub foreign_attrs: bool,
+    /// where CODING elements go: 0 inside fx:ELEMENTS like every other section (document order as
+    /// listed); 1 all codings in fx:PROCESSING-INFORMATION AFTER fx:ELEMENTS (the place the FIBEX
+    /// schema gives them); 2 in fx:PROCESSING-INFORMATION BEFORE fx:ELEMENTS; 3 after fx:ELEMENTS
+    /// with further sections (fx:REQUIREMENTS) in between
+    pub codings_place: usize,
 }
 impl Default for Layout {
     fn default() -> Self {
-        Layout { pdu_order: [0, 1, 2, 3, 4], frame_order: [0, 1, 2, 3, 4], ref_first: false, refs_open_close: false, manuf_order: [0, 1, 2, 3], noise: false, indent: true, foreign_desc: false, foreign_attrs: false }
+        Layout { pdu_order: [0, 1, 2, 3, 4], frame_order: [0, 1, 2, 3, 4], ref_first: false, refs_open_close: false, manuf_order: [0, 1, 2, 3], noise: false, indent: true, foreign_desc: false, foreign_attrs: false, codings_place: 0 }
     }
 }
 
@@ -275,6 +280,23 @@ pub fn render_doc(elems: &[Elem], l: &Layout) -> String {
         out.push_str("<fx:PROJECT ID=\"Project\"><ho:SHORT-NAME>ProjectName</ho:SHORT-NAME></fx:PROJECT>");
     }
     out.push_str(nl);
+    let mut processing_information = String::new();
+    if l.codings_place != 0 {
+        processing_information.push_str("<fx:PROCESSING-INFORMATION>");
+        processing_information.push_str(nl);
+        processing_information.push_str("<fx:CODINGS>");
+        processing_information.push_str(nl);
+        for e in elems.iter().filter(|e| matches!(e, Elem::Coding(_))) {
+            render_elem(e, l, &mut processing_information);
+        }
+        processing_information.push_str("</fx:CODINGS>");
+        processing_information.push_str(nl);
+        processing_information.push_str("</fx:PROCESSING-INFORMATION>");
+        processing_information.push_str(nl);
+    }
+    if l.codings_place == 2 {
+        out.push_str(&processing_information);
+    }
     out.push_str("<fx:ELEMENTS>");
     out.push_str(nl);
     if l.noise {
@@ -285,6 +307,9 @@ pub fn render_doc(elems: &[Elem], l: &Layout) -> String {
     }
     let mut cur: Option<usize> = None;
     for e in elems {
+        if l.codings_place != 0 && matches!(e, Elem::Coding(_)) {
+            continue;
+        }
         let s = section_of(e);
         if cur != Some(s) {
             if let Some(c) = cur {
@@ -304,6 +329,13 @@ pub fn render_doc(elems: &[Elem], l: &Layout) -> String {
     }
     out.push_str("</fx:ELEMENTS>");
     out.push_str(nl);
+    if l.codings_place == 3 {
+        out.push_str("<fx:REQUIREMENTS><fx:REQUIREMENT ID=\"R1\"><ho:SHORT-NAME>r1</ho:SHORT-NAME></fx:REQUIREMENT></fx:REQUIREMENTS>");
+        out.push_str(nl);
+    }
+    if l.codings_place == 1 || l.codings_place == 3 {
+        out.push_str(&processing_information);
+    }
     out.push_str("</fx:FIBEX>");
     out.push_str(nl);
     out
